@@ -137,7 +137,13 @@ impl Sandbox {
             if let Some(parent) = full.parent() {
                 let _ = std::fs::create_dir_all(parent);
             }
-            std::fs::write(&full, data.as_slice()).unwrap_or_else(|e| panic!("sandbox write {}: {}", full.display(), e));
+            if data.starts_with(crate::case::SYMLINK_MARKER) {
+                let target = String::from_utf8_lossy(&data[crate::case::SYMLINK_MARKER.len()..]).into_owned();
+                let _ = std::fs::remove_file(&full);
+                std::os::unix::fs::symlink(&target, &full).unwrap_or_else(|e| panic!("sandbox symlink {}: {}", full.display(), e));
+            } else {
+                std::fs::write(&full, data.as_slice()).unwrap_or_else(|e| panic!("sandbox write {}: {}", full.display(), e));
+            }
             let st = stat_of(&full).unwrap();
             self.state.insert(rel.clone(), (crate::rng::hash_bytes(data), st));
         }
